@@ -1,4 +1,4 @@
 SPECIFICATION Spec
-CONSTANTS Kind = "cipher" MaxBits = 200 MaxBytes = 67 BigBits = {255, 256, 257, 511, 512, 513, 1023, 4095, 4096} BigBytes = {63, 64, 65, 128} GridBits = {1, 40, 67} Reps = 1 LongOctets = {4097, 8193, 65537} SeqGroups = 3
+CONSTANTS Kind = "cipher" MaxBits = 200 MaxBytes = 67 BigBits = {255, 256, 257, 511, 512, 513, 1023, 4095, 4096, 8184, 8192, 16376, 16384, 32760, 32768, 65528, 65536} BigBytes = {63, 64, 65, 128, 255, 256, 511, 512, 1016, 1023, 1024, 2047, 2048, 4088, 4095, 4096, 8191, 8192, 16383, 16384} GridBits = {1, 40, 67} Reps = 1 LongOctets = {4097, 8193, 65537} SeqGroups = 3
 INVARIANTS InDomain Emit
 CHECK_DEADLOCK FALSE
